@@ -114,7 +114,7 @@ def check_case(ctx, ds, labels_name, n, schemes, score_with_library=True):
         if got_p.shape != (k, k, 3):
             ctx.violation('table-shape', case(ds, labels_name, n, s), got_p.shape, (k, k, 3))
             continue
-        tol = 1e-9 * max(1.0, float(np.abs(exp).max()) if k else 1.0)
+        tol = 1e-9   # absolute: all penalties are dyadic, every sum is exact in float64
         if not np.allclose(got_p, exp, rtol=0, atol=tol):
             bad = np.argwhere(np.abs(got_p - exp) > tol)[0]
             ctx.violation('table-mismatch', case(ds, labels_name, n, s, {'entry': bad, 'id_order': order}),
@@ -137,7 +137,7 @@ def check_case(ctx, ds, labels_name, n, schemes, score_with_library=True):
             fac = _lib['K'](scheme) if score_with_library else None
             for ci, (c, cr) in enumerate(cands):
                 ref = refmodel.ref_score(c, ds, s[0], s[1])
-                if abs(sums[ci] - ref) > 1e-9 * max(1.0, abs(ref)):
+                if abs(sums[ci] - ref) > 1e-9:
                     ctx.violation('table-sum-vs-definition', case(ds, labels_name, n, s, {'candidate': c}),
                                   float(sums[ci]), ref)
                     break
@@ -148,7 +148,7 @@ def check_case(ctx, ds, labels_name, n, schemes, score_with_library=True):
                     except Exception as e:
                         ctx.violation('score-raises', case(ds, labels_name, n, s, {'candidate': c}), None, ref, exc=e)
                         break
-                    if abs(sums[ci] - lib_score) > 1e-9 * max(1.0, abs(ref)):
+                    if abs(sums[ci] - lib_score) > 1e-9:
                         ctx.violation('table-sum-vs-library-score', case(ds, labels_name, n, s, {'candidate': c}),
                                       float(sums[ci]), lib_score)
                         break
@@ -168,7 +168,7 @@ def check_case(ctx, ds, labels_name, n, schemes, score_with_library=True):
                 except Exception as e:
                     ctx.violation('table-raises', case(ds, labels_name, n, s2, {'after_scheme': s1}), None, None, exc=e)
                     continue
-                if got2.shape != exp2.shape or not np.allclose(got2, exp2, rtol=0, atol=1e-9 * max(1.0, float(np.abs(exp2).max()))):
+                if got2.shape != exp2.shape or not np.allclose(got2, exp2, rtol=0, atol=1e-9):
                     ctx.violation('table-depends-on-the-previous-request', case(ds, labels_name, n, s2, {'after_scheme': s1}),
                                   got2, exp2)
                     break
